@@ -328,11 +328,22 @@ pub fn load_value(j: &Value, crosscheck: bool) -> Result<Loaded, LoadError> {
             // prover's log of verifier challenges
             match (ln.path, ln.kind) {
                 ("STARK/Interaction", "Field Element") => log.interaction_elements.push(parse_felt(ln.value)?),
-                ("STARK/Original", "Field Element") => log.constraint_alpha = Some(parse_felt(ln.value)?),
-                ("STARK/Out Of Domain Sampling/OODS values", "Field Element") => log.oods_point = Some(parse_felt(ln.value)?),
-                ("STARK/Out Of Domain Sampling", "Field Element") => log.oods_alpha = Some(parse_felt(ln.value)?),
-                ("STARK/FRI/QueryIndices", "Number") => log.query_indices.push(ln.value.trim().parse().map_err(|_| LoadError::Malformed("query index".into()))?),
-                (p, "Field Element") if p.starts_with("STARK/FRI/Commitment/Layer ") => log.fri_eval_points.push(parse_felt(ln.value)?),
+                // the remaining V->P lines are the prover's log of challenges the verifier derives itself: they
+                // are not part of the proof, the parser does not read them, and an unreadable value there only
+                // means that this log entry is missing (C08 uses the log of the shipped files)
+                ("STARK/Original", "Field Element") => log.constraint_alpha = parse_felt(ln.value).ok(),
+                ("STARK/Out Of Domain Sampling/OODS values", "Field Element") => log.oods_point = parse_felt(ln.value).ok(),
+                ("STARK/Out Of Domain Sampling", "Field Element") => log.oods_alpha = parse_felt(ln.value).ok(),
+                ("STARK/FRI/QueryIndices", "Number") => {
+                    if let Ok(q) = ln.value.trim().parse() {
+                        log.query_indices.push(q)
+                    }
+                }
+                (p, "Field Element") if p.starts_with("STARK/FRI/Commitment/Layer ") => {
+                    if let Ok(v) = parse_felt(ln.value) {
+                        log.fri_eval_points.push(v)
+                    }
+                }
                 _ => {}
             }
             continue;
